@@ -487,10 +487,15 @@ class Samples(BaseSamples):
         self.evidence_error = self.xp.sqrt(
             self.xp.sum((self.weights - self.evidence) ** 2) / (n * (n - 1))
         )
-        self.log_evidence_error = self.xp.abs(
-            self.evidence_error / self.evidence
-        )
         log_w = self.log_w - self.xp.max(self.log_w)
+        # Relative error from weights scaled by the largest one, so that it
+        # stays finite when exp(log_w) overflows or underflows
+        scaled_w = self.xp.exp(log_w)
+        scaled_z = self.xp.mean(scaled_w)
+        self.log_evidence_error = self.xp.abs(
+            self.xp.sqrt(self.xp.sum((scaled_w - scaled_z) ** 2) / (n * (n - 1)))
+            / scaled_z
+        )
         self.effective_sample_size = self.xp.exp(
             asarray(logsumexp(log_w) * 2 - logsumexp(log_w * 2), self.xp)
         )
